@@ -113,6 +113,85 @@ func shapeC08(pk map[string]*pkgInfo) []fact {
 		out = append(out, fact{"l4tee_branch_aliases_buf", "bool", b2s(aliases),
 			"the tee branch Connection shares cx.buf's backing array with the Connection of the main chain"})
 	}
+	// listener.handle: the array goes back to the pool exactly when the connection was not hijacked:
+	//   defer func() { if !errors.Is(err, errHijacked) { bufPool.Put(buf) } }()
+	// and nowhere else in the function
+	if l4 != nil {
+		exact := false
+		if fd := l4.findFunc("listener", "handle"); fd != nil {
+			puts := 0
+			ast.Inspect(fd.Body, func(n ast.Node) bool {
+				if ce, ok := n.(*ast.CallExpr); ok && l4.src(ce.Fun) == "bufPool.Put" {
+					puts++
+				}
+				return true
+			})
+			for _, st := range fd.Body.List {
+				ds, ok := st.(*ast.DeferStmt)
+				if !ok {
+					continue
+				}
+				fl, ok := ds.Call.Fun.(*ast.FuncLit)
+				if !ok || len(fl.Body.List) != 1 {
+					continue
+				}
+				is, ok := fl.Body.List[0].(*ast.IfStmt)
+				if !ok || is.Else != nil || is.Init != nil || len(is.Body.List) != 1 {
+					continue
+				}
+				cond := strings.Join(strings.Fields(l4.src(is.Cond)), "")
+				body := strings.Join(strings.Fields(l4.src(is.Body.List[0])), "")
+				if (cond == "!errors.Is(err,errHijacked)" || cond == "err!=errHijacked") && body == "bufPool.Put(buf)" && puts == 1 {
+					exact = true
+				}
+			}
+		}
+		out = append(out, fact{"layer4_listener_handle_put_iff_not_hijacked", "bool", b2s(exact),
+			"listener.handle returns its array to bufPool in exactly one place: a deferred `if !errors.Is(err, errHijacked) { bufPool.Put(buf) }`"})
+		// Server.handle: exactly one bufPool.Put, deferred, at top level
+		one := false
+		if fd := l4.findFunc("Server", "handle"); fd != nil {
+			puts, deferred := 0, 0
+			ast.Inspect(fd.Body, func(n ast.Node) bool {
+				if ce, ok := n.(*ast.CallExpr); ok && l4.src(ce.Fun) == "bufPool.Put" {
+					puts++
+				}
+				return true
+			})
+			for _, st := range fd.Body.List {
+				if ds, ok := st.(*ast.DeferStmt); ok && strings.Join(strings.Fields(l4.src(ds.Call)), "") == "bufPool.Put(buf)" {
+					deferred++
+				}
+			}
+			one = puts == 1 && deferred == 1
+		}
+		out = append(out, fact{"layer4_server_handle_put_once_deferred", "bool", b2s(one),
+			"Server.handle returns its array to bufPool in exactly one place: a top-level `defer bufPool.Put(buf)`"})
+		// prefetch: cx.buf only ever becomes a reslice of itself or the result of append(cx.buf, ...)
+		// (never the temporary pooled chunk)
+		okAssign := false
+		if fd := l4.findFunc("Connection", "prefetch"); fd != nil {
+			okAssign = true
+			ast.Inspect(fd.Body, func(n ast.Node) bool {
+				as, ok := n.(*ast.AssignStmt)
+				if !ok {
+					return true
+				}
+				for i, lh := range as.Lhs {
+					if strings.Join(strings.Fields(l4.src(lh)), "") != "cx.buf" || i >= len(as.Rhs) {
+						continue
+					}
+					r := strings.Join(strings.Fields(l4.src(as.Rhs[i])), "")
+					if !(strings.HasPrefix(r, "cx.buf[:") || strings.HasPrefix(r, "append(cx.buf,")) {
+						okAssign = false
+					}
+				}
+				return true
+			})
+		}
+		out = append(out, fact{"layer4_prefetch_buf_only_grows_itself", "bool", b2s(okAssign),
+			"Connection.prefetch assigns cx.buf only a reslice of cx.buf or append(cx.buf, ...): the temporary pooled chunk never becomes the buffer"})
+	}
 	return out
 }
 
